@@ -53,13 +53,14 @@ func propDefs() map[string]*PropDef {
 	m["C01"] = &PropDef{
 		ID: "C01",
 		Funcs: append(treeFuncs([]string{"Search", "Delete", "Insert"},
-			map[string][]string{"Search": append([]string{`/found_sound`, `/not_found_justified`}, safetyInc...), "Delete": append([]string{`/removed_key_matches`, `/not_deleted_justified`}, safetyInc...), "Insert": append([]string{`/new_leaf_holds_key`, `/new_leaf_linked`, `/split_links_new_leaf`, `/path_split_links_new_leaf`, `/overwrite_key_matches`}, safetyInc...)},
+			map[string][]string{"Search": append([]string{`/found_sound`, `/not_found_justified`}, safetyInc...), "Delete": append([]string{`/removed_key_matches`, `/not_deleted_justified`, `/unlinked`}, safetyInc...), "Insert": append([]string{`/new_leaf_holds_key`, `/new_leaf_linked`, `/split_links_new_leaf`, `/path_split_links_new_leaf`, `/overwrite_key_matches`}, safetyInc...)},
 			// new_leaf_linked needs the slow stages (7-25 s, slice-dependent) for the numeric and collation kinds: generated, not claimed there
-			map[string][]string{"Insert": append([]string{`^C/\(\*(collation|unsigned|signed|float)SortedTree\[K,V\]\)\.Insert/new_leaf_linked`, `^C/\(\*(collation|unsigned|signed|float)SortedTree\[K,V\]\)\.Insert/path_split_links_new_leaf`}, insertRung2...)}), withoutFn(helperFuncs(nil), "maximum")...),
+			map[string][]string{"Delete": {`^C/\(\*(collation|unsigned|signed|float)SortedTree\[K,V\]\)\.Delete/unlinked`}, "Insert": append([]string{`^C/\(\*(collation|unsigned|signed|float)SortedTree\[K,V\]\)\.Insert/new_leaf_linked`, `^C/\(\*(collation|unsigned|signed|float)SortedTree\[K,V\]\)\.Insert/path_split_links_new_leaf`}, insertRung2...)}), withoutFn(helperFuncs(nil), "maximum")...),
 		Floor: 2000,
 		Assumptions: []string{
 			"SCOPE: this check decides the 'each call returns normally' half of C01 (no index/slice/nil/cast/overflow fault, no reachable panic, every callee precondition met) for Insert, Search and Delete of all six tree kinds, for every tree satisfying the typing invariant WF1 - i.e. every reachable tree, PROVIDED WF1 is preserved by Insert/Delete. The functional half (results equal those of an ideal map; no key lost or resurrected) needs the path-coherence invariant (rung 2 of DESIGN.md)and is NOT decided here",
 			"the DESCENT RULE of the radix tree is a step obligation of the descent loops of Search, Delete and Insert (step_ensures descent_rule): after one iteration the current node is the child the previous node registers - in its byte->child table as specified for its class - under the key byte at position (previous depth + previous node's compressed-path length), and depth has advanced by that length plus one. Search's hand-inlined per-class lookups are thereby checked against the node view; a wrong byte index or depth increment fails it",
+			"after a Delete that unlinks a leaf without merging its parent away, the parent no longer registers the key byte of that leaf (unlinked; claimed for the byte-string and compound trees, where it discharges in seconds - the other kinds need the slow stages)",
 			"Delete answers false only for such a reason too (not_deleted_justified, additionally: the child under the next key byte is a leaf holding a different key)",
 			"Search answers 'absent' only for a reason the descent rule gives (not_found_justified): empty tree, a leaf holding a different key, the key ending at this node, no child registered under the next key byte, or a mismatch with the inline part of the compressed path. With descent_rule and found_sound this pins Search down as THE lookup of the radix tree the nodes represent; what it does not say is that the tree holds the right keys (Insert/Delete completeness, rung 2)",
 			"clauses of the FUNCTIONAL half that need no ghost state are decided as well: Search reports 'present' only when the leaf it ends in holds exactly the searched (transformed) key and returns that leaf's value (found_sound); Delete unlinks only a leaf that holds exactly the searched key (removed_key_matches; on the relinking exit of the generated numeric/compound kinds the match is recorded by a ghost assignment at the deleteChild call); every leaf Insert creates holds exactly the inserted key and value (new_leaf_holds_key); on the 'no child under this byte' exit the new leaf is registered under the key byte at the depth where the descent stopped (new_leaf_linked; claimed for the byte-string and compound trees, where it discharges in seconds); when a leaf is split, the slot holds a fresh node4 whose compressed-path length is the length of the common prefix of the two keys from the current depth, and the new leaf is registered under the first key byte after that prefix (split_links_new_leaf, all six kinds; path_split_links_new_leaf says the same for the split of a compressed path; claimed for the byte-string and compound trees, where it discharges in seconds) and its overwrite exit writes the new value into the leaf that holds exactly that key (overwrite_key_matches). That every stored key is FOUND (completeness of the descent) is the part that needs path coherence",
